@@ -1,8 +1,80 @@
-# decode_icc command interpreter: one obligation per command shape (concrete command stream, symbolic data stream)
+# decode_icc command interpreter (E.4.3-E.4.5): one obligation per command shape.
+# Concrete command stream (every interpreter branch / loop bound is concrete), symbolic data stream (hence symbolic
+# previously decoded output); postcondition: whole decoded profile == executable spec written from the definition.
 _D = "crates/jxl-color/src/icc/decode.rs"; _DM = "kani/jxl-color/decode.rs"
-K("icc.header_only", ["C18", "C01"], "jxl-color", _D, _DM, "icc_header_only",
-  "bounded:output_size in {0,1,44,127,128}, all residual bytes", ["decode_icc", "predict_header"],
-  "profile of <= 128 bytes: Ok, byte i == residual i + standard header prediction from the decoded bytes; one residual missing => Err")
-K("icc.cmd_copy", ["C18", "C01"], "jxl-color", _D, _DM, "icc_cmd_copy",
-  "bounded:128 header bytes + one command 1 of 5 bytes, all data bytes", ["decode_icc"],
-  "whole profile == header ++ the 5 data bytes")
+_F = ["decode_icc", "predict_header", "varint"]
+# Kani's per-assertion reachability goals cost thousands of SAT iterations on these harnesses (270 s vs 40 s); vacuity is
+# guarded by explicit kani::cover! / by asserting that the Ok (or Err) outcome is the one that occurs.
+_NR = ["--no-assertion-reach-checks"]
+K("icc.header_small", ["C18", "C01"], "jxl-color", _D, _DM, "icc_header_small",
+  "bounded:output_size in {0,1,44}, all residual bytes", _F,
+  "profile of <= 128 bytes: Ok, byte i == residual i + standard header prediction from the decoded bytes; one residual missing => Err", kani_args=_NR)
+K("icc.header_127", ["C18", "C01"], "jxl-color", _D, _DM, "icc_header_127",
+  "bounded:output_size 127, all residual bytes", _F,
+  "Ok, every byte == residual + standard header prediction (size bytes, version, mntrRGB XYZ, acsp, platform completion, creator copy)", kani_args=_NR)
+K("icc.header_128", ["C18", "C01"], "jxl-color", _D, _DM, "icc_header_128",
+  "bounded:output_size 128, all residual bytes", _F,
+  "Ok without reading any command, every byte == residual + prediction; 127 residuals => Err", kani_args=_NR)
+K("icc.cmd_copy_shuffle", ["C18", "C01"], "jxl-color", _D, _DM, "icc_cmd_copy_shuffle",
+  "bounded:command stream [no tags; 1 x5; 2 x5; 3 x7; 3 x2; 2 x1; 1 x0], all 148 data bytes", _F + ["shuffle2", "shuffle4"],
+  "profile == header ++ raw bytes ++ column-wise reads of the 2-/4-row matrices (lengths not multiples of the width)", kani_args=_NR)
+K("icc.cmd_xyz_common", ["C18", "C01"], "jxl-color", _D, _DM, "icc_cmd_xyz_common",
+  "bounded:command stream [no tags; 10; 16..23; 10], all data bytes", _F,
+  "command 10 == 'XYZ ' 0000 ++ 12 data bytes; command 16+k == k-th common type signature ++ 0000", kani_args=_NR)
+_PRED = ("each run byte i == unshuffled payload[i] + byte (i mod width) of the big-endian order-N prediction (p1 | 2p1-p2 | 3p1-3p2+p3 "
+         "mod 2^(8 width)) from the elements 1,2,3 strides before the start of the element containing i")
+for _h, _b in (("predict_w1", "six command-4 runs of width 1 (orders 0,1,2 x implicit stride / explicit strides 2,5,31)"),
+               ("predict_w2", "six command-4 runs of width 2 (orders 0,1,2 x implicit stride / explicit strides 3,5,8; odd lengths: partial last element)"),
+               ("predict_w4_implicit", "three command-4 runs of width 4, implicit stride, orders 0,1,2, lengths 9,7,10 (partial last element)"),
+               ("predict_w4_explicit", "three command-4 runs of width 4, explicit strides 5,7,12, orders 0,1,2, lengths 5,6,11 (partial last element)")):
+    K("icc." + _h, ["C18", "C01"], "jxl-color", _D, _DM, "icc_" + _h, "bounded:" + _b + ", all data bytes",
+      _F + ["shuffle2", "shuffle4"], _PRED, kani_args=_NR)
+K("icc.predict_flags_any", ["C18", "C01"], "jxl-color", _D, _DM, "icc_predict_flags_any",
+  "bounded:command stream [no tags; 4 f 0; 1 x1] for all 256 flag bytes f, all data bytes", _F,
+  "Ok (zero-length run, then the copied byte) iff width code != 2 and order code != 3 and bit 4 clear (explicit stride 0 < width); else Err", kani_args=_NR)
+K("icc.predict_stride_reject", ["C18", "C01"], "jxl-color", _D, _DM, "icc_predict_stride_reject",
+  "bounded:three concrete command streams (width 2 stride 1; width 4 stride 3; width 1 stride 32 after 128 bytes), all data bytes", _F,
+  "explicit stride < width => Err; 4*stride >= bytes decoded so far => Err (stride 31 after 128 bytes is accepted in icc.predict_w1)", kani_args=_NR)
+K("icc.cmd_last_byte_any", ["C18", "C01"], "jxl-color", _D, _DM, "icc_cmd_last_byte_any",
+  "bounded:command stream [no tags; c] for all 256 command bytes c, no payload, all header bytes", _F,
+  "c in 16..=23 => Ok, profile == header ++ (c-16)-th common type ++ 0000; every other c => Err (unknown / truncated command / missing payload)", kani_args=_NR)
+K("icc.cmd_select_any", ["C18", "C01"], "jxl-color", _D, _DM, "icc_cmd_select_any",
+  "bounded:command stream [no tags; c 6] for all 256 command bytes c, 6 payload bytes, all data bytes", _F + ["shuffle2", "shuffle4"],
+  "c = 1/2/3 => Ok with copy / 2-shuffle / 4-shuffle of the payload; every other c => Err", kani_args=_NR)
+K("icc.cmd_short_data", ["C18", "C01"], "jxl-color", _D, _DM, "icc_cmd_short_data",
+  "bounded:[no tags; c 6] for all c with 5 payload bytes; [4 0 3] with 2 payload bytes; [1 6] with output_size 133", _F,
+  "payload shorter than the announced length => Err; one byte more than output_size at the end => Err", kani_args=_NR)
+K("icc.copy_len_any", ["C18", "C01"], "jxl-color", _D, _DM, "icc_copy_len_any",
+  "bounded:command stream [no tags; 1 n] for all 256 bytes n, 5 payload bytes, output_size 133", _F,
+  "Ok (header ++ payload) iff n == 5; n < 5 => Err (size mismatch at the end), 5 < n < 128 => Err (payload too short), n >= 128 => Err (unterminated varint)", kani_args=_NR)
+K("icc.tag_literal", ["C18", "C01"], "jxl-color", _D, _DM, "icc_tag_literal",
+  "bounded:command stream [1 tag; tagcode 1 without flags; end; 1 x20], all tag names and data bytes", _F,
+  "entry == (name from the data stream, 128 + 12, 20 if the NAME is one of rXYZ gXYZ bXYZ kXYZ wtpt bkpt lumi else 0)", kani_args=_NR)
+K("icc.tag_literal_overrun", ["C18", "C01"], "jxl-color", _D, _DM, "icc_tag_literal_overrun",
+  "bounded:same with 4 bytes after the tag list, all tag names and data bytes", _F,
+  "Err iff the literal name implies size 20 (140 + 20 > output_size 148); else Ok with size 0", kani_args=_NR)
+K("icc.tag_flags_chain", ["C18", "C01"], "jxl-color", _D, _DM, "icc_tag_flags_chain",
+  "bounded:five literal tags with flags (start+size | start | size | none | start+size ending exactly at output_size), concrete varints, all names and data bytes", _F,
+  "explicit start/size are used verbatim (explicit size beats the name); missing start == previous start + previous size; "
+  "missing size == 20 by name else previous size; start + size == output_size accepted", kani_args=_NR)
+K("icc.tag_size_mismatch", ["C18", "C01"], "jxl-color", _D, _DM, "icc_tag_size_mismatch",
+  "bounded:two concrete command streams (explicit 150+51 > 200; chained wtpt 184+20 > 200), all data bytes", _F,
+  "tag start + size > output_size => Err (explicit and chained/implied)", kani_args=_NR)
+K("icc.tag_triples", ["C18", "C01"], "jxl-color", _D, _DM, "icc_tag_triples",
+  "bounded:seven tagcode-2/3 commands (no flags, start+size, size only, chaining after a triple) = 21 entries, all data bytes", _F,
+  "tagcode 2 => rTRC gTRC bTRC all (start, size); tagcode 3 => rXYZ (start), gXYZ (start+size), bXYZ (start+2*size), implied size 20; "
+  "the tag after a triple continues at start+size of its FIRST entry", kani_args=_NR)
+K("icc.tag_shortcuts", ["C18", "C01"], "jxl-color", _D, _DM, "icc_tag_shortcuts",
+  "bounded:tagcodes 4..=20 once each in order, first with explicit start 0, all header bytes", _F,
+  "names == cprt wtpt bkpt rXYZ gXYZ bXYZ kXYZ rTRC gTRC bTRC kTRC chad desc chrm dmnd dmdd lumi; start chained; size 20 by name else inherited; "
+  "commands ending inside the tag list with exactly output_size bytes is a valid end", kani_args=_NR)
+K("icc.tag_num_bound", ["C18", "C01"], "jxl-color", _D, _DM, "icc_tag_num_bound",
+  "bounded:output_size 164, tag-count varint 4, 5 and 1, empty tag list, all data bytes", _F,
+  "count written big-endian after the header; count > (output_size - 128) / 12 => Err; varint 1 => count 0 written", kani_args=_NR)
+K("icc.tag_invalid_code", ["C18", "C01"], "jxl-color", _D, _DM, "icc_tag_invalid_code",
+  "bounded:command stream [1 tag; t] for all tag command bytes t with tagcode 21..=63 (any flags)", _F, "Err", kani_args=_NR)
+K("icc.tag_truncated", ["C18", "C01"], "jxl-color", _D, _DM, "icc_tag_truncated",
+  "bounded:three concrete truncated tag commands (literal name missing, start varint missing, size varint missing)", _F, "Err", kani_args=_NR)
+K("icc.tag_list_end_size", ["C18"], "jxl-color", _D, _DM, "icc_tag_list_end_size",
+  "bounded:output_size 200, command stream [1 tag] ending inside the tag list, all header bytes", _F,
+  "Ok only if exactly output_size bytes were produced (libjxl: 'Wrong output size')", kani_args=_NR)
